@@ -130,6 +130,15 @@ def _slots(params, origin, path, out, st):
                         raise Unsupported("ITEM-BYTE-SIZE smaller than content")
                     c += d.itemsize
                 cur = c
+            elif isinstance(d, D.DtcDop):
+                # a DTC-DOP is placed like the integer it carries (identical conversion only); which integers are described
+                # DTCs is decided by D.effective_dtcs (own DTCs, DTC-REFs, DTCs inherited through LINKED-DTC-DOPS)
+                if t != "value" or not isinstance(d.dct, D.Std) or d.dct.condensed or d.dct.mask is not None \
+                        or d.dct.bt != "A_UINT32" or d.dct.enc not in (None, "NONE") or not isinstance(d.compu, D.Identical):
+                    raise Unsupported("dtc-dop")
+                s = Slot(path + (p.name,), pos, bp, d.dct.bitlen, numeric_order(d.dct), "value", p, dct=d.dct, dop=d)
+                out.append(s)
+                cur = pos + s.nbytes
             else:
                 raise Unsupported(type(d).__name__)
         elif t == "reserved":
@@ -212,7 +221,7 @@ def reference_pdu(comp, value, trig=None):
                 v = s.param.default
             if v is None:
                 raise Unsupported("missing value")
-            x = to_internal(s.dop, v)
+            x = v.code if isinstance(s.dop, D.DtcDop) else to_internal(s.dop, v)
             if s.dct.mask is not None and isinstance(x, int):
                 x &= s.dct.mask
             raws[s.path] = raw_of_internal(s.dct, x)
@@ -249,7 +258,12 @@ def value_of_raws(comp, sl, raws, trig=None):
         x, canon = internal_of_raw(s.dct, raw & s.mask if s.dct.mask is not None else raw)
         if not canon:
             return None
-        if s.dop is not None:
+        if isinstance(s.dop, D.DtcDop):
+            from .sexp import DtcVal
+            if x not in [c for c, _ in D.effective_dtcs(s.dop)]:
+                return None             # not a described DTC: strict decoding refuses it
+            put(s.path, DtcVal(x))
+        elif s.dop is not None:
             from .values import canonical_internal
             if not canonical_internal(s.dop, x):
                 return None
@@ -260,3 +274,87 @@ def value_of_raws(comp, sl, raws, trig=None):
         else:
             put(s.path, x)
     return out
+
+
+# ------------------------------------------------------------------ sequential layouts with terminated objects
+def minmax_terminator(dct) -> bytes:
+    """termination sequence of a MIN-MAX-LENGTH-TYPE (ISO 22901-1 7.3.6.3.4: 0x00 / 0xFF, two bytes for A_UNICODE2STRING)"""
+    if dct.term == "END-OF-PDU":
+        return b""
+    b = b"\x00" if dct.term == "ZERO" else b"\xff"
+    return b * (2 if dct.bt == "A_UNICODE2STRING" else 1)
+
+
+def minmax_raw(dct, v) -> bytes:
+    return bytes(v) if dct.bt == "A_BYTEFIELD" else v.encode(str_codec(dct.bt, dct.enc, D.is_hl(dct)))
+
+
+def minmax_wire_length(dct, data: bytes, start: int):
+    """what a reader of the wire takes as the value of a MIN-MAX-LENGTH object that starts at `start`: (byte length of the value,
+    bytes consumed incl. a terminator); None if the PDU ends before MIN-LENGTH.  The value ends in front of the first termination
+    sequence that lies at an offset >= MIN-LENGTH which is a multiple of the sequence length (an odd-aligned 0000 inside a UTF-16
+    string is two halves of neighbouring code units, not a terminator) and entirely inside MAX-LENGTH, else at MAX-LENGTH, else at
+    the end of the PDU"""
+    if start + dct.min > len(data):
+        return None
+    t = minmax_terminator(dct)
+    limit = len(data) - start if dct.max is None else min(len(data) - start, dct.max)
+    if t:
+        off = dct.min + (-dct.min) % len(t)
+        while off + len(t) <= limit:
+            if data[start + off:start + off + len(t)] == t:
+                return off, off + len(t)
+            off += len(t)
+    return limit, limit
+
+
+def sequential_pdu(comp, value):
+    """reference PDU of a composite whose parameters follow each other without explicit positions and are byte-aligned
+    standard-length constants / values or MIN-MAX-LENGTH values (identical conversion): (pdu, expected decoded value tree), or None
+    if `value` has no canonical wire form (a min-max value that is too short / long or that a reader of the wire would end early).
+    Written from the ODX rules, never looks at odxtools.  A terminator follows a min-max value unless the value has MAX-LENGTH
+    or ends the PDU."""
+    out, exp = b"", {}
+    n = len(comp.params)
+    for i, p in enumerate(comp.params):
+        if p.bytepos is not None or p.bitpos:
+            raise Unsupported("explicit position")
+        if p.type == "coded-const":
+            dct, v = p.dct, p.value
+        elif p.type == "value" and isinstance(p.dop, D.SimpleDop) and isinstance(p.dop.compu, D.Identical):
+            dct, v = p.dop.dct, value[p.name]
+        else:
+            raise Unsupported(p.type)
+        exp[p.name] = v
+        if isinstance(dct, D.Std):
+            if dct.bitlen % 8 or dct.mask is not None:
+                raise Unsupported("std")
+            b = raw_of_internal(dct, v).to_bytes(dct.bitlen // 8, "big")
+            out += b if numeric_order(dct) else b[::-1]
+        elif isinstance(dct, D.MinMax):
+            raw = minmax_raw(dct, v)
+            t = minmax_terminator(dct)
+            if len(raw) < dct.min or (dct.max is not None and len(raw) > dct.max) or (t and len(raw) % len(t)):
+                return None
+            last = i == n - 1
+            if dct.term == "END-OF-PDU" and not last:
+                raise Unsupported("END-OF-PDU object in front of another one")
+            piece = raw if (last or len(raw) == dct.max) else raw + t
+            out += piece
+            if last:
+                continue
+            # the reader of the wire must find exactly this value again (whatever follows)
+            probe = out + b"\x5a"
+            if minmax_wire_length(dct, probe, len(out) - len(piece)) != (len(raw), len(piece)):
+                return None
+        else:
+            raise Unsupported(type(dct).__name__)
+    # a value that ends the PDU: the reader must take all of it
+    last = comp.params[-1]
+    dct = last.dct if last.type == "coded-const" else last.dop.dct
+    if isinstance(dct, D.MinMax):
+        raw = minmax_raw(dct, exp[last.name])
+        got = minmax_wire_length(dct, out, len(out) - len(raw))
+        if got is None or got[0] != len(raw):
+            return None
+    return out, exp
